@@ -105,7 +105,7 @@ impl Property for C13 {
         let tree = gen_tree(t, &TreeCfg { links: true, ..TreeCfg::default() });
         let base = if t.chance(50) { gen_base(t, &tree) } else { Base::Abs };
         let under = gen_under(t, &tree, &base);
-        let layers = gen_layers(t, &tree, 0);
+        let layers = rebase_layers(gen_layers(t, &tree, 0), &base);
         Case { tree, base, under, layers, tripwire: t.chance(128), follow: t.chance(70) }
     }
     fn directed(&self) -> Vec<Case> {
